@@ -116,6 +116,15 @@ class Run:
             return self.ok(rule, func, node, slot, found=found if len(str(found)) < 200 else str(found)[:200])
         return self.bad(rule, func, node, slot, expected, found, extra)
 
+    def same(self, cond, rule, func, node, slot, expected, found=None):
+        """PASS if the construct has the expected shape, else UNRECOGNISED (never a VIOLATION): for shape matches whose
+        failure does not by itself show that behaviour changed."""
+        if found is None:
+            found = astutil.src(node) if hasattr(node, '_fields') else ''
+        if cond:
+            return self.ok(rule, func, node, slot, found=str(found)[:200])
+        return self.unknown(rule, func, node, slot, f'shape not recognised (expected {expected}; found {str(found)[:160]})')
+
     def floor(self, rule, n):
         self.floors[rule] = n
 
